@@ -29,7 +29,7 @@ Section Top.
   Lemma I_init : I c (read c (init_state c)).
   Proof.
     constructor.
-    - apply read_sp_ok. reflexivity.
+    - apply read_sp_ok; [reflexivity | cbn; lia].
     - destruct (read_other c (init_state c)) as (_ & _ & _ & _ & _ & _ & _ & Hm & _). rewrite Hm. constructor.
     - unfold cnt_ok. destruct (read_other c (init_state c)) as (Hc & _). rewrite Hc. cbn.
       destruct (o_maxexpr (cO c)); [left; reflexivity | right; lia].
@@ -39,7 +39,7 @@ Section Top.
     Sim c (pushV (set_rstack [r] (read c (init_state c)))) [] (mkSig 0 (o_initstate (cO c))) (land c None 0 (mu0)) [] (Some r) false.
   Proof.
     assert (Hadv : pt (read c (init_state c)) = adv (save0 d)) by (rewrite read_pt_adv; reflexivity).
-    pose proof (reach_init d) as Hr. pose proof (reach_ok _ _ Hr) as [A B].
+    pose proof (reach_init d) as Hr. pose proof (reach_ok _ _ Hr) as (A & B & _).
     assert (Hoff : offset (sp_pos (adv (save0 d))) = 0) by (rewrite adv_off; reflexivity).
     assert (Hrune : rune_at c 0 = (sp_rn (adv (save0 d)), sp_w (adv (save0 d)))).
     { unfold rune_at; cbn [rd rData rU rO rG rE]. fold d. rewrite B. f_equal. rewrite A, Hoff. reflexivity. }
